@@ -17,6 +17,7 @@ Geoms == {G(1024, 256, n, p) : n \in Counts, p \in Profiles}
          \cup {G(4096, 256, n, p) : n \in {2, 10, 28}, p \in {"sparse", "ss2_2", "metabg64", "flex"}}        \* first_data_block = 0
          \cup {G(2048, 512, n, p) : n \in {3, 9}, p \in {"sparse", "none", "metabg"}}
          \cup {G(1024, 8192, n, p) : n \in {2, 4}, p \in {"sparse", "flex", "ss2_1", "ss2_2", "metabg", "rsv"}}   \* default group size: plain e2fsck
+         \cup {G(4096, 32768, 2, p) : p \in {"sparse", "flex"}} \cup {G(2048, 16384, 3, "sparse")}              \* default group size, first_data_block = 0
          \cup {G(1024, 1024, n, p) : n \in {4, 10, 28}, p \in {"rsv"}}                                       \* resize_inode + flex_bg
          \cup {G(1024, 256, 82, p) : p \in {"sparse", "metabg64", "ss2_2"}}
 ResizeTargets(g) == ({1, 2, 3, 4, 8, 10, 26, 28, 34, 50} \cup {g.groups - 1, g.groups + 1, g.groups + 7}) \ {0, g.groups}
